@@ -12,7 +12,7 @@ schema and only a behavioural difference is reported.
 """
 from harness.props import lvs_common as L
 
-RULE = ('schemas: 2-6 rules + temporary rules, references (same rule up to 3x), redefinitions, temporary patterns, '
+RULE = ('every schema text is compiled TWICE in the process and the second model is the one judged (a compilation is a function of the text: class compile-depends-on-history); schemas: 2-6 rules + temporary rules, references (same rule up to 3x), redefinitions, temporary patterns, '
         '0-2 constraint sets with 1-3 terms of 1-3 options (literal / pattern / $eq / $eq_type / table-driven / undefined '
         'function), rule names in random alphabetical order; a reference-heavy family (one rule with alternative constraint '
         'sets reached several times, directly and through intermediate rules); a wide family (the SIZE of the schema): one flat rule of '
@@ -113,6 +113,12 @@ def check_schema(ctx, ast, fe, lits, tag, maxlen, extra, more_names=()):
     text = L.txt_ast(ast, rng)
     sa = L.sx_ast(ast)
     r = L.impl_compile(text)
+    if L.REPEAT_DIFFS:
+        for t in L.REPEAT_DIFFS:
+            ctx.violation('compile_lvs', 'compile-depends-on-history',
+                          'the second compilation of the same schema text in this process gives a different model (or outcome) than the first',
+                          {'schema': t})
+        del L.REPEAT_DIFFS[:]
     if L.too_big(r):
         ctx.stat('schemas.skipped-huge-model')
         return
